@@ -312,6 +312,7 @@ type State struct {
 	infeasible bool
 	storeLog  *storeLog
 	concreteAlloc bool
+	loopEntry map[*ssa.BasicBlock]*State
 }
 
 func (s *State) clone() *State {
@@ -321,7 +322,7 @@ func (s *State) clone() *State {
 		ghost: make(map[string]T, len(s.ghost)), ev: s.ev, next: s.next,
 		defers: append([]deferred{}, s.defers...), cut: make(map[*ssa.BasicBlock]bool, len(s.cut)),
 		closures: make(map[string]*FnVal, len(s.closures)), panicking: s.panicking, recovered: s.recovered,
-		prevBlock: s.prevBlock, modHeaps: make(map[string]bool, len(s.modHeaps)), storeLog: s.storeLog, concreteAlloc: s.concreteAlloc,
+		prevBlock: s.prevBlock, modHeaps: make(map[string]bool, len(s.modHeaps)), storeLog: s.storeLog, concreteAlloc: s.concreteAlloc, loopEntry: s.loopEntry,
 	}
 	for k, v := range s.vals {
 		n.vals[k] = v
@@ -376,18 +377,28 @@ func (s *State) define(c T, t T) {
 	if s.ev != nil {
 		n = s.ev.n + 1
 	}
-	s.ev = &Event{Kind: EvAssume, Text: eq(c, t).S, Def: c.S, prev: s.ev, n: n}
+	s.ev = &Event{Kind: EvAssume, Text: eq(c, t).S, Def: c.S, prev: s.ev, n: n, Init: inInitPhase}
 }
 
 func (s *State) assume(t T) {
 	if t.S == "true" {
 		return
 	}
+	// split conjunctions that contain quantifiers, so that cutting / filtering
+	// quantified assumptions never discards their ground conjuncts
+	if strings.Contains(t.S, "(forall ") && (strings.HasPrefix(t.S, "(and ") || strings.HasPrefix(t.S, "(=> ")) {
+		if parts := splitConj(t.S); len(parts) > 1 {
+			for _, p := range parts {
+				s.assume(T{p, SBool})
+			}
+			return
+		}
+	}
 	n := 1
 	if s.ev != nil {
 		n = s.ev.n + 1
 	}
-	s.ev = &Event{Kind: EvAssume, Text: t.S, prev: s.ev, n: n}
+	s.ev = &Event{Kind: EvAssume, Text: t.S, prev: s.ev, n: n, Init: inInitPhase}
 }
 
 // heap returns the current term of a heap, creating its initial constant.
@@ -579,6 +590,11 @@ func (s *State) load(a *Addr) T {
 		if !ok {
 			base = declConst("G "+a.glob.String(), sortOf(a.rootT))
 			s.globals[a.glob] = base
+			s.assume(typingFact(a.rootT, base))
+			if a.glob.Pkg != nil && !strings.HasPrefix(a.glob.Pkg.Pkg.Path(), modulePath) && base.Sort == SIface && types.Identical(a.rootT, types.Universe.Lookup("error").Type()) {
+				// sentinel errors of external packages (io.EOF, rsa.ErrVerification, ...) are non-nil
+				s.assume(not(eq(ifaceTag(base), mkInt(0))))
+			}
 		}
 		return project(base, a.path)
 	case aCell:
@@ -664,4 +680,38 @@ func (s *State) logStore(heap string, ref T) {
 	if s.storeLog != nil {
 		s.storeLog.entries = append(s.storeLog.entries, storeEntry{heap, ref})
 	}
+}
+
+// splitConj splits (and a b ..) and (=> g (and a b ..)) into separate formulas.
+func splitConj(t string) []string {
+	args := splitArgs(t)
+	if len(args) < 3 {
+		return nil
+	}
+	switch args[0] {
+	case "and":
+		var out []string
+		for _, a := range args[1:] {
+			if sub := splitConj(a); len(sub) > 1 {
+				out = append(out, sub...)
+			} else {
+				out = append(out, a)
+			}
+		}
+		return out
+	case "=>":
+		if len(args) != 3 {
+			return nil
+		}
+		sub := splitConj(args[2])
+		if len(sub) <= 1 {
+			return nil
+		}
+		var out []string
+		for _, a := range sub {
+			out = append(out, "(=> "+args[1]+" "+a+")")
+		}
+		return out
+	}
+	return nil
 }
